@@ -375,13 +375,27 @@ class Ctx:
                 self.broken = {"file": prop_file, "theorem": None, "error": out2[-400:]}
                 self.extra["broken_obligation"] = self.broken
                 return False
-            ptxt = open(os.path.join(COQ, prop_file), encoding="utf-8").read()
-            pnames = re.findall(r"Print Assumptions\s+([A-Za-z0-9_'.]+)\s*\.", ptxt)
-            ax = parse_assumptions(out2)
-            if len(ax) != len(pnames):
-                self.note(f"could not align Print Assumptions output ({len(ax)} blocks, {len(pnames)} commands)")
-            for n, a in zip(pnames, ax):
-                self.axioms[n] = a
+            outs = [(prop_file, out2)]
+            for t in extra_targets:
+                if "/Properties/" in t:
+                    rc4, out4 = sh(["coqc", "-Q", "theories", "MP", t], cwd=COQ, timeout=1200)
+                    self.checker_cmds.append(f"cd coq && coqc -Q theories MP {t}")
+                    if rc4 != 0:
+                        self.broken = {"file": t, "theorem": None, "error": out4[-400:]}
+                        self.extra["broken_obligation"] = self.broken
+                        return False
+                    outs.append((t, out4))
+            for pf, o in outs:
+                ptxt = open(os.path.join(COQ, pf), encoding="utf-8").read()
+                pnames = re.findall(r"Print Assumptions\s+([A-Za-z0-9_'.]+)\s*\.", ptxt)
+                ax = parse_assumptions(o)
+                if len(ax) != len(pnames):
+                    self.note(f"could not align Print Assumptions output of {pf} ({len(ax)} blocks, {len(pnames)} commands)")
+                for n, a in zip(pnames, ax):
+                    self.axioms[n] = a
+                    if a:
+                        self.fail("proof:axioms:" + n, f"property theorem {n} depends on axioms {a}",
+                                  {"kind": "broken-proof", "theorem": n, "axioms": a}, concrete=False)
             self.discharged = self.obligations
             if self.tier == "thorough":
                 # independent re-check of the compiled cone with coqchk, and its axiom summary
